@@ -35,7 +35,10 @@ RULE_ADDED = (
               'alues. '
               ' '
               'Round 11: x509 elements whose signature algorithm identifier is unknown to the l'
-              'ibrary. ')
+              'ibrary. '
+              ' '
+              'Round 14: NaN as an element name (every reference the same object), self-certify'
+              'ing or not. ')
 RULE = RULE + " " + RULE_ADDED.strip()
 ASSUMPTIONS = [
     "any exception out of from_jsonfile counts as 'reports an error' (the admin tools turn "
